@@ -346,9 +346,12 @@ def make_registry(specs, order):
     reg = MeshRulesRegistry()
     for i in order:
         s = specs[i]
+        shared_families = set(s["families"])   # a rule-file constant: the SAME set object is assigned by every call of this handler
 
-        def handler(l, r, sess, s=s):
+        def handler(l, r, sess, s=s, shared_families=shared_families):
             lf, rf, sf = fields(s, l.device.fqdn, r.device.fqdn, list(getattr(l, "ports", [])), list(getattr(r, "ports", [])))
+            if "families" in sf:
+                sf["families"] = shared_families
             for kf, v in lf.items():
                 setattr(l, kf, v)
             for kf, v in rf.items():
@@ -398,6 +401,8 @@ def _gen_mesh(rnd):
         kind = "direct" if rnd.chance(75) else "indirect"
         if specs and rnd.chance(50):
             kind = specs[0]["kind"]
+        if kind == "indirect" and rnd.chance(35):
+            rr = lr   # a rule between devices of one tier: both templates match both devices, so it applies in both orientations
         specs.append({
             "kind": kind, "lmask": rnd.choice(MASKS[lr]), "rmask": rnd.choice(MASKS[rr]), "filter": rnd.choice(FILTERS),
             "ports": rnd.choice(["united", "united", "separate"]), "plane": 1 if rnd.chance(15) else 0,
@@ -481,7 +486,7 @@ def _mesh(case):
             continue
         for p in base[a]:
             b = p["hostname"]
-            if isinstance(base.get(b), tuple) or b not in base:
+            if isinstance(base.get(b), tuple) or b not in base or b == a:   # (a same-tier rule also matches a device with itself: no second end)
                 continue
             mirror = [q for q in base[b] if q["hostname"] == a and q["vrf"] == p["vrf"] and q["remote_as"] == p["local_as"]
                       and q["local_as"] == p["remote_as"] and q["families"] == p["families"] and q["bfd"] == p["bfd"]
